@@ -11,6 +11,9 @@
 (*   newest   at quiescence the newest live incarnation is not the one       *)
 (*            registered (ownership, delivery channel / ack channel,         *)
 (*            watermark replay, cancel function)                             *)
+(*   killed   a step of incarnation k ended the upstream stream (its context  *)
+(*            is done) of a NEWER receiver incarnation: terminating the       *)
+(*            previous incarnation is the successor's job, never the reverse  *)
 (*   leftover after all streams ended something is still registered or a     *)
 (*            worker is still running                                        *)
 (***************************************************************************)
@@ -40,7 +43,10 @@ OnStep(e) ==
       newestR == IF "3" \in Started THEN "3" ELSE IF "2" \in Started THEN "2" ELSE "1"
       midBad == e.ok /\ Started # {} /\ a.pcR[newestR] = "running"
                 /\ (a.ack # Num(newestR) \/ a.active # Num(newestR))
+      Dead(x) == {x.dead[i] : i \in 1..Len(x.dead)}
+      killedSet == {j \in Dead(a) \ Dead(b) : j > k /\ e.a \in ReceiverCleanup \cup {"RTerm", "RSetAck", "RSetRest"}}
   IN /\ FlagAll((IF e.crash # "" /\ ~crashSeen THEN {<<l, "crash", e.a, k>>} ELSE {})
+                \cup {<<l, "killed", e.a, j>> : j \in killedSet}
                 \cup (IF stoleS \/ stoleR THEN {<<l, "stole", e.a, k>>} ELSE {})
                 \cup (IF midBad THEN {<<l, "newest", "R", Num(newestR)>>} ELSE {}))
      /\ crashSeen' = (crashSeen \/ e.crash # "")
